@@ -136,16 +136,19 @@ def renderOne (x : Ext) (o : ROpts) (prev : Option Tok) (t : Tok) (next : Option
   else if t.type == "definition" then .ok []
   else .ok (renderTokenP o prev t next)
 
+/-- `result += …` : the first error wins, otherwise the pieces are concatenated -/
+def seqE (A B : Except PyErr (List Piece)) : Except PyErr (List Piece) :=
+  match A with
+  | .error e => .error e
+  | .ok ps =>
+    match B with
+    | .error e => .error e
+    | .ok qs => .ok (ps ++ qs)
+
 /-- `RendererHTML.renderInline` (prev/next are the neighbours in the same list) -/
 def renderInlineP (x : Ext) (o : ROpts) : Option Tok → List Tok → Except PyErr (List Piece)
   | _, [] => .ok []
-  | prev, t :: rest =>
-    match renderOne x o prev t rest.head? with
-    | .error e => .error e
-    | .ok ps =>
-      match renderInlineP x o (some t) rest with
-      | .error e => .error e
-      | .ok qs => .ok (ps ++ qs)
+  | prev, t :: rest => seqE (renderOne x o prev t rest.head?) (renderInlineP x o (some t) rest)
 
 /-- `RendererHTML.render` -/
 def renderP (x : Ext) (o : ROpts) : Option Tok → List Tok → Except PyErr (List Piece)
@@ -157,12 +160,7 @@ def renderP (x : Ext) (o : ROpts) : Option Tok → List Tok → Except PyErr (Li
         | some (c :: cs) => renderInlineP x o none (c :: cs)
         | _ => .ok []
       else renderOne x o prev t rest.head?
-    match here with
-    | .error e => .error e
-    | .ok ps =>
-      match renderP x o (some t) rest with
-      | .error e => .error e
-      | .ok qs => .ok (ps ++ qs)
+    seqE here (renderP x o (some t) rest)
 
 def render (x : Ext) (o : ROpts) (ts : List Tok) : Except PyErr (List Char) :=
   match renderP x o none ts with
